@@ -890,6 +890,8 @@ structure Settled (s s' : P2P) (gh gh' : Ghost) (t0 : TLState) (reqs' : List Req
   pred : s'.pred = s.pred
   statuses : s'.localConnectStatus = s.localConnectStatus
   sparse : s'.sparse = s.sparse
+  rest : s'.handles = s.handles ∧ s'.maxPrediction = s.maxPrediction ∧
+    s'.pendingLocalInputs = s.pendingLocalInputs ∧ s'.numPlayers = s.numPlayers
 
 theorem rollbackIfNeeded_spec (s s' : P2P) (confirmed : Frame) (t0 : TLState) (reqs reqs' : List Request)
     (gh : Ghost) (h : TInv s.pred s.sync s.localConnectStatus gh t0 reqs)
@@ -912,10 +914,13 @@ theorem rollbackIfNeeded_spec (s s' : P2P) (confirmed : Frame) (t0 : TLState) (r
     obtain ⟨gh', hinv, hsp, hs1, hcur, hnq, hask', hclean⟩ := adjust_spec s s1 _ confirmed t0 reqs reqs1 gh h
       (fun p hp hne' => (hes.2 hne).2 _ (mem_of_rget _ _ hp) hne') hadj
     subst hs'; subst hr'
-    refine ⟨gh', ⟨hinv, hsp, hcur, hnq, hask', hclean, ?_, ?_, ?_⟩⟩
+    refine ⟨gh', ⟨hinv, hsp, hcur, hnq, hask', hclean, ?_, ?_, ?_, ?_⟩⟩
     · show s1.pred = s.pred; rw [hs1]
     · show s1.localConnectStatus = s.localConnectStatus; rw [hs1]
     · show s1.sparse = s.sparse; rw [hs1]
+    · show s1.handles = s.handles ∧ s1.maxPrediction = s.maxPrediction ∧
+        s1.pendingLocalInputs = s.pendingLocalInputs ∧ s1.numPlayers = s.numPlayers
+      rw [hs1]; exact ⟨rfl, rfl, rfl, rfl⟩
   · simp only [hfi, Bool.false_eq_true, if_false] at hrb
     have := pure_ok hrb
     simp only [Prod.mk.injEq] at this
@@ -923,7 +928,7 @@ theorem rollbackIfNeeded_spec (s s' : P2P) (confirmed : Frame) (t0 : TLState) (r
     subst hs'; subst hr'
     have h0 : s.sync.checkSimulationConsistency s.disconnectFrame = NULL_FRAME := by simpa using hfi
     have hall := (hes.1.mp h0).2
-    exact ⟨gh, ⟨h, rfl, rfl, rfl, hask, fun p hp => hall _ (mem_of_rget _ _ hp), rfl, rfl, rfl⟩⟩
+    exact ⟨gh, ⟨h, rfl, rfl, rfl, hask, fun p hp => hall _ (mem_of_rget _ _ hp), rfl, rfl, rfl, rfl, rfl, rfl, rfl⟩⟩
 
 theorem Settled_save (s s1 : P2P) (gh gh1 : Ghost) (t0 : TLState) (reqs1 : List Request) (sy : SyncLayer) (r : Request)
     (h : Settled s s1 gh gh1 t0 reqs1) (hsv : s1.sync.saveCurrentState = .ok (sy, r)) :
@@ -931,7 +936,7 @@ theorem Settled_save (s s1 : P2P) (gh gh1 : Ghost) (t0 : TLState) (reqs1 : List 
   obtain ⟨hq, hc, hr, _⟩ := save_fields _ _ _ hsv
   refine ⟨⟨SyncInv_congr h.inv.sync hq hc, ?_, ?_⟩, h.specs, by show sy.currentFrame = _; rw [hc]; exact h.cur,
     by show sy.queues.length = _; rw [hq]; exact h.nq, by show AllAsked sy.queues sy.currentFrame; rw [hq, hc]; exact h.asked,
-    by show ∀ p, p < sy.queues.length → _; rw [hq]; exact h.clean, h.pred, h.statuses, h.sparse⟩
+    by show ∀ p, p < sy.queues.length → _; rw [hq]; exact h.clean, h.pred, h.statuses, h.sparse, h.rest⟩
   · show (execReqs t0 (reqs1 ++ [r])).cur = sy.currentFrame
     rw [execReqs_append, hr, hc]; exact h.inv.exec
   · intro p hp f
@@ -944,7 +949,9 @@ theorem Settled_trans (s s1 s2 : P2P) (gh gh1 gh2 : Ghost) (t0 : TLState) (reqs2
     Settled s s2 gh gh2 t0 reqs2 := by
   obtain ⟨_, h1⟩ := h1
   refine ⟨?_, by rw [h2.specs, h1.specs], by rw [h2.cur, h1.cur], by rw [h2.nq, h1.nq], h2.asked, h2.clean,
-    by rw [h2.pred, h1.pred], by rw [h2.statuses, h1.statuses], by rw [h2.sparse, h1.sparse]⟩
+    by rw [h2.pred, h1.pred], by rw [h2.statuses, h1.statuses], by rw [h2.sparse, h1.sparse],
+    ⟨h2.rest.1.trans h1.rest.1, h2.rest.2.1.trans h1.rest.2.1, h2.rest.2.2.1.trans h1.rest.2.2.1,
+     h2.rest.2.2.2.trans h1.rest.2.2.2⟩⟩
   have := h2.inv
   rw [h1.pred, h1.statuses] at this
   exact this
@@ -984,7 +991,8 @@ theorem saveAfterRollback_spec (s s1 s' : P2P) (confirmed : Frame) (t0 : TLState
         obtain ⟨gh2, hinv, hsp2, hs2, hcur, hnq, hask', hclean⟩ := adjust_spec s1 s2 _ confirmed t0 reqs1 reqs2 gh1 hinv1
           (fun p hp hne' => absurd (h.clean p hp) hne') hsr
         have h12 : Settled s1 s2 gh1 gh2 t0 reqs2 :=
-          ⟨hinv, hsp2, hcur, hnq, hask', hclean, by rw [hs2], by rw [hs2], by rw [hs2]⟩
+          ⟨hinv, hsp2, hcur, hnq, hask', hclean, by rw [hs2], by rw [hs2], by rw [hs2],
+           by rw [hs2]; exact ⟨rfl, rfl, rfl, rfl⟩⟩
         exact ⟨gh2, Settled_trans s s1 s2 gh gh1 gh2 t0 reqs2 ⟨_, h⟩ h12⟩
     · simp only [hold, if_false] at hsv
       have := pure_ok hsv
